@@ -534,6 +534,9 @@ var l2LongNames = []string{
 	"gke-prod-europe-west4-payments-general-purpose-n2-standard-8-5f3a9c1e-zz9z",
 }
 
+// fully qualified names: equal host parts in different zones, host parts that are prefixes of one another
+var l2FQDNNames = []string{"worker-1.zone-a.example.com", "worker-1.zone-b.example.com", "worker-2.zone-a.example.com", "worker-2.zone-b.example.com", "worker-10.zone-a.example.com"}
+
 // names where one is another plus a digit, to go with addresses where one is another with that digit in front
 var l2CollideNames = []string{"node1", "node11", "node2", "node21", "node3"}
 var l2CollideAddrs = [][]string{{"10.0.0.7"}, {"110.0.0.7"}, {"10.0.0.71"}, {"210.0.0.7"}, {"92.168.1.5"}, {"192.168.1.5"}, {"1.0.0.7"}, {"11.0.0.7"}}
@@ -607,6 +610,8 @@ func TestVerif_C12(t *testing.T) {
 			l2NodeNames = l2LongNames
 		case "collide":
 			l2NodeNames = l2CollideNames
+		case "fqdn":
+			l2NodeNames = l2FQDNNames
 		case "large":
 			l2NodeNames = l2LargeNames
 		}
@@ -698,12 +703,12 @@ func TestVerif_C12(t *testing.T) {
 	}
 	var distinct int64
 	work := 0
-	for _, kind := range []string{"", "long", "collide", "large"} {
+	for _, kind := range []string{"", "long", "collide", "fqdn", "large"} {
 		useNames(kind)
 		var all [][]string
 		cat := addrCatalogue
 		switch kind {
-		case "long":
+		case "long", "fqdn":
 			if len(cat) > 20 {
 				cat = cat[:20]
 			}
